@@ -116,6 +116,17 @@ def run(pid, path):
                     _print("REPLAY: budget %d exceeded: total %s grants %s" % (its, d["total"], d.get("grants")))
         _print("REPLAY: recorded failure was: %s" % rp.get("what"))
         return 1 if still else 0
+    if kind == "holdback":
+        import gen_full as GF
+        cf = os.path.join(C.BUILD, "replay_hold.case")
+        C.write_cases(cf, [("r", GF.case_lines(rp["input"], rp["options"], {"iterations": 1})[:2] + [rp["hold"]])])
+        rc, out, err = C.run([C.HARNESS, "holdback", cf], timeout=600, env=C.GOENV)
+        lines = C.group_lines(out).get("r", [])
+        for l in lines:
+            _print("REPLAY: " + l)
+        still = any(l.endswith("same false") for l in lines) or "end" not in lines
+        _print("REPLAY: recorded failure was: %s" % rp.get("what"))
+        return 1 if still else 0
     if kind == "fullmoves":
         import fullmoves as FM
         import gen_full as GF
